@@ -66,6 +66,7 @@ fn main() {
         "C09" => props::c09::run(&args, &mut acc),
         "C10" => props::c10::run(&args, &mut acc),
         "C11" => props::c11::run(&args, &mut acc),
+        "C12" => props::c12::run(&args, &mut acc),
         "C13" => props::c13::run(&args, &mut acc),
         "C15" => props::c15::run(&args, &mut acc),
         "C14" => props::c14::run(&args, &mut acc),
